@@ -82,20 +82,20 @@ Section MolWalks.
   (* both build paths: an implementation graph validated against the enumerated list denotes the same operator as the
      optimized graph of the model, word by word *)
   Theorem both_paths_agree (half : R) cover L t v gopt gexp : (1 <= L)%nat ->
-    from_opchains cover (mol_chains half L t v) L 0 = Ok gopt -> linked gopt = true ->
+    from_opchains cover (mol_chains half L t v) L 0 = Ok gopt ->
     poly_eqb (walks gexp L (g_t0 gexp)) (chain_poly L 0 (mol_chains half L t v)) = true ->
     forall w, length w = L -> den gexp w = den gopt w.
   Proof.
-    intros HL Ho Hl Hp w Hw. rewrite (graph_chains_validated gexp L 0 _ Hp w Hw).
-    symmetry. apply (mol_opt_den R half cover L t v gopt HL Ho Hl).
+    intros HL Ho Hp w Hw. rewrite (graph_chains_validated gexp L 0 _ Hp w Hw).
+    symmetry. apply (proj2 (mol_opt_den R half cover L t v gopt HL Ho)).
   Qed.
   Theorem spin_both_paths_agree (half : R) cover L t v cs gopt gexp : (1 <= L)%nat ->
     spin_chains half L t v = Ok cs ->
-    from_opchains cover cs L 0 = Ok gopt -> linked gopt = true ->
+    from_opchains cover cs L 0 = Ok gopt ->
     poly_eqb (walks gexp L (g_t0 gexp)) (chain_poly L 0 cs) = true ->
     forall w, length w = L -> den gexp w = den gopt w.
   Proof.
-    intros HL Hc Ho Hl Hp w Hw. rewrite (graph_chains_validated gexp L 0 _ Hp w Hw).
-    symmetry. apply (spin_mol_opt_den R half cover L t v cs gopt HL Hc Ho Hl).
+    intros HL Hc Ho Hp w Hw. rewrite (graph_chains_validated gexp L 0 _ Hp w Hw).
+    symmetry. apply (proj2 (spin_mol_opt_den R half cover L t v cs gopt HL Hc Ho)).
   Qed.
 End MolWalks.
